@@ -31,7 +31,10 @@ RULE = ("seeded histories (<=30 ops; longer in thorough) over 3 real mutable dir
         "node objects of one dircap, each adding one link under the same / an NFC-equivalent / a different name with "
         "overwrite in {False, ONLY_FILES, True}, optionally over an existing file or directory entry; seeded random "
         "delivery order, and forced interleavings where one writer's publish requests are held back until the other's "
-        "add completed), judged by the monitor only")
+        "add completed — there the monitor demands what the statement says outright (a no-overwrite add never replaces "
+        "an entry, also on the retry path; an only-files add never replaces a directory; nothing appears that nobody "
+        "wrote) and only counts lost edits of colliding uncoordinated writers —, and sequential modes (the second holder "
+        "starts after the first finished) where a name map is demanded in full), judged by the monitor only")
 TRUSTED = ["lean/Tahoe/Dir/Edit.lean is a hand transcription of dirnode.py's modifiers and DirectoryNode edit methods "
            "(dict as association list; metadata 'tahoe' key as a separate field; node = kind + write cap + read cap + error flag)",
            "harness/grid.py (in-process grid, virtual clock) and the canonicalisation of listings in harness/props/c20.py"]
@@ -646,7 +649,8 @@ def gen_two_writer(rng):
     same = rng.random() < 0.8
     ow = lambda: rng.choice(["n", "n", "n", "n", "f", "y"])
     pre = rng.choice([None, None, None, "file", "dir"])
-    return {"two": True, "mode": rng.choice(["forced", "forced", "concurrent", "concurrent", "forced-b-first"]),
+    return {"two": True, "mode": rng.choice(["forced", "forced", "concurrent", "concurrent", "forced-b-first",
+                                             "sequential", "sequential-b-first"]),
             "pre": pre, "pre_name": spell() if rng.random() < 0.6 else "other",
             "A": {"name": spell(), "ow": ow(), "kind": rng.choice(["file", "file", "dir"])},
             "B": {"name": spell() if same else "b-" + base, "ow": ow(), "kind": rng.choice(["file", "file", "dir"])}}
@@ -703,9 +707,15 @@ def run_two_writer(ctx, rt, g, case):
         boxes[who] = []
         d.addBoth(boxes[who].append)
         return d
-    first, second = ("A", "B") if case["mode"] != "forced-b-first" else ("B", "A")
+    first, second = ("A", "B") if not case["mode"].endswith("b-first") else ("B", "A")
     nodes = {"A": a, "B": b}
-    if case["mode"].startswith("forced"):
+    if case["mode"].startswith("sequential"):
+        # no overlap: the second holder starts after the first one's add has completed
+        d1 = watch(first, start(nodes[first], ops[first]))
+        rt.pump(until=d1)
+        d2 = watch(second, start(nodes[second], ops[second]))
+        rt.pump(until=d2)
+    elif case["mode"].startswith("forced"):
         # the first writer's publish requests are held back "on the wire" while the other one completes its add
         d1 = watch(first, start(nodes[first], ops[first]))
         steps = 0
@@ -737,11 +747,33 @@ def run_two_writer(ctx, rt, g, case):
     final = {}
     for k, (n, md) in rt.wait(cb.create_node_from_uri(a.get_uri()).list()).items():
         final[k] = ("dir" if IDirectoryNode.providedBy(n) else "file", n.get_uri())
-    # ---- monitor: the two adds behave like updates of one name map, applied in some order
+    # ---- monitor
     V = lambda what, sig: ctx.violation(what, case, sig, {"results": res, "final": {k: v[0] + ":" + v[1].decode() for k, v in final.items()}})
     for who in "AB":
         if res[who] in ("pending",) or res[who].startswith("error"):
             ctx.disagree("a concurrent add ended unexpectedly", case, res[who], None)
+    overlapped = not case["mode"].startswith("sequential")
+    same = nfc(ops["A"]["name"]) == nfc(ops["B"]["name"])
+    # (1) what the statement says outright, on every path incl. the retry after an UncoordinatedWriteError:
+    #     a no-overwrite add never replaces an entry, an only-files add never replaces a directory
+    if same and all(ops[w_]["ow"] == "n" and res[w_] == "ok" for w_ in "AB"):
+        V("two no-overwrite adds of one name both reported success: one replaced the other's entry",
+          "concurrent-no-overwrite-replaced")
+    for w_ in "AB":
+        k = nfc(ops[w_]["name"])
+        if res[w_] == "ok" and k in ref0 and (ops[w_]["ow"] == "n" or (ops[w_]["ow"] == "f" and ref0[k][0] == "dir")):
+            V("an add that may not replace the existing entry reported success over it",
+              "concurrent-no-overwrite-replaced" if ops[w_]["ow"] == "n" else "concurrent-only-files-replaced-dir")
+    # (2) nothing may appear that nobody wrote
+    allowed = {}
+    for k, v in ref0.items():
+        allowed.setdefault(k, set()).add(v)
+    for w_ in "AB":
+        allowed.setdefault(nfc(ops[w_]["name"]), set()).add((ops[w_]["kind"], ops[w_]["cap"]))
+    for k, v in final.items():
+        if v not in allowed.get(k, ()):
+            V("the directory holds an entry that neither writer wrote", "concurrent-foreign-entry")
+    # (3) map explanation: the two adds applied to one name map in some order
     explained = False
     for order in ("AB", "BA"):
         # An add that failed with UncoordinatedWriteError may or may not have taken effect.  An add that reports
@@ -767,16 +799,17 @@ def run_two_writer(ctx, rt, g, case):
             if okay and m == final:
                 explained = True
     if not explained:
-        same = nfc(ops["A"]["name"]) == nfc(ops["B"]["name"])
-        no_ow_ok = [w_ for w_ in "AB" if ops[w_]["ow"] == "n" and res[w_] == "ok"]
-        if same and no_ow_ok and (res["A"] == "ok" and res["B"] == "ok" or
-                                  final.get(nfc(ops[no_ow_ok[0]]["name"]), (None, None))[1] != ops[no_ow_ok[0]]["cap"]
-                                  or len(ref0) and nfc(ops["A"]["name"]) in ref0):
-            V("a no-overwrite add that reported success replaced (or was credited with) another writer's entry",
-              "concurrent-no-overwrite-replaced")
+        if not overlapped:
+            # the holders took turns: a name map is demanded in full
+            V("two adds made one after the other by two holders of the write cap are not explained by a name map",
+              "sequential-writers-not-a-map")
         else:
-            V("two concurrent adds are not explained by applying them to a name map in either order",
-              "concurrent-not-a-map")
+            # The publishes overlapped.  Tahoe does not coordinate writers ("prime coordination directive"): one
+            # writer's shares may be partly overwritten, readers may find either version, and a retried modifier may
+            # meet its own partial write.  The statement (op *sequences*) promises nothing here beyond (1) and (2).
+            own = [w_ for w_ in "AB" if res[w_] == "exists" and nfc(ops[w_]["name"]) not in ref0
+                   and not (same and res["B" if w_ == "A" else "A"] in ("ok", "exists", "ucwe"))]
+            ctx.count("concurrent:exists-from-own-partial-write" if own else "concurrent:lost-edit-after-collision")
     ctx.case(("two", case["mode"], case["pre"], ops["A"]["ow"], ops["B"]["ow"], res["A"], res["B"]))
     ctx.count("two-writer:%s:%s/%s" % (case["mode"], res["A"], res["B"]))
 
